@@ -113,6 +113,21 @@ fn main() {
             let trace = args.iter().any(|a| a == "--trace");
             std::process::exit(runner::replay(scn.as_ref(), &file, trace));
         }
+        "find" => {
+            // indexes (of the first n runs) whose plan, as JSON, contains the given text
+            let id = args.get(2).unwrap_or_else(|| usage());
+            let n: u64 = args.get(3).and_then(|s| s.parse().ok()).unwrap_or(1000);
+            let needle = args.get(4).cloned().unwrap_or_default();
+            let tier = if args.iter().any(|a| a == "thorough") { Tier::Thorough } else { Tier::Quick };
+            let Some(scn) = scen::by_id(id) else { usage() };
+            let seed = env_u64("VERIF_SEED").unwrap_or(20261003);
+            for idx in 0..n {
+                let (plan, _) = runner::generate(scn.as_ref(), tier, seed, idx);
+                if serde_json::to_string(&plan).unwrap().contains(&needle) {
+                    println!("{}", idx);
+                }
+            }
+        }
         "one" => {
             let id = args.get(2).unwrap_or_else(|| usage());
             let idx: u64 = args.get(3).and_then(|s| s.parse().ok()).unwrap_or_else(|| usage());
